@@ -25,7 +25,10 @@
 (*  - location "both": either representation (cookie / server) may carry   *)
 (*    the session after any save;                                          *)
 (*  - a continuing server-side session may keep its sid or get a fresh one;*)
-(*  - expired records may linger in, or vanish from, the store.            *)
+(*  - expired records may linger in, or vanish from, the store;            *)
+(*  - clear(): whether age()/expiration()/on_server() show the defaults    *)
+(*    at once or keep the old settings until the request ends - but what   *)
+(*    they show is what the request leaves (and what its deadline uses).   *)
 (***************************************************************************)
 EXTENDS Integers, Sequences, FiniteSets, TLC
 
